@@ -303,11 +303,16 @@ def build(spec: dict):
     bounds = np.array(BOXES[spec.get("box", "sym")](dim), dtype=np.float64)
     maximize = bool(spec.get("maximize", False))
     rec = Recorder(spec.get("fn", "sphere"), bounds, maximize, max_consults=int(spec.get("max_consults", 1200)))
+    rec.reports = bool(spec.get("reports", False))
+    rec.dump_at = spec.get("dump_at")
     script = spec.get("script")
     levels = []
     problems = []
     for li, lv in enumerate(spec["levels"]):
-        p = FunctionProblem(LevelObjective(rec, li), bounds=bounds, maximize=maximize)
+        objective = LevelObjective(rec, li)
+        if spec.get("objective_form") == "lambda":
+            objective = (lambda o: (lambda x: o(x)))(objective)       # objectives given as lambdas must survive a snapshot
+        p = FunctionProblem(objective, bounds=bounds, maximize=maximize)
         for w in spec.get("wrappers", []):
             if w[0] == "count":
                 p = EvalCountingProblem(p)
